@@ -88,6 +88,7 @@ type State struct {
 	V        map[any]Val
 	Alias    map[ssa.Value]ssa.Value // free variable -> captured cell; parameter -> argument
 	Volatile map[any]bool            // cells that may be written behind the explorer's back
+	Fresh    map[ssa.Value]bool      // allocations executed on this path (unwritten fields hold zero values)
 	Visit    map[*ssa.BasicBlock]int
 	Trail    []string
 	Events   []Event
@@ -96,12 +97,15 @@ type State struct {
 }
 
 func NewState() *State {
-	return &State{V: map[any]Val{}, Alias: map[ssa.Value]ssa.Value{}, Volatile: map[any]bool{}, Visit: map[*ssa.BasicBlock]int{}, Flags: map[string]int{}}
+	return &State{V: map[any]Val{}, Alias: map[ssa.Value]ssa.Value{}, Volatile: map[any]bool{}, Fresh: map[ssa.Value]bool{}, Visit: map[*ssa.BasicBlock]int{}, Flags: map[string]int{}}
 }
 
 func (s *State) Clone() *State {
 	c := &State{V: make(map[any]Val, len(s.V)), Alias: make(map[ssa.Value]ssa.Value, len(s.Alias)), Volatile: make(map[any]bool, len(s.Volatile)),
-		Visit: make(map[*ssa.BasicBlock]int, len(s.Visit)), Flags: make(map[string]int, len(s.Flags))}
+		Fresh: make(map[ssa.Value]bool, len(s.Fresh)), Visit: make(map[*ssa.BasicBlock]int, len(s.Visit)), Flags: make(map[string]int, len(s.Flags))}
+	for k, v := range s.Fresh {
+		c.Fresh[k] = v
+	}
 	for k, v := range s.V {
 		c.V[k] = v
 	}
@@ -343,6 +347,11 @@ func (s *State) load(addr ssa.Value) Val {
 	if s.Volatile[k] {
 		return Val{}
 	}
+	if fa, ok := s.Resolve(addr).(*ssa.FieldAddr); ok {
+		if base := s.rootAlloc(fa.X); base != nil && s.Volatile[base] {
+			return Val{}
+		}
+	}
 	if c, ok := s.V[k]; ok {
 		return c
 	}
@@ -352,7 +361,32 @@ func (s *State) load(addr ssa.Value) Val {
 			return zeroVal(p.Elem())
 		}
 	}
+	// an unwritten field of an object allocated on this path that has not escaped
+	if fa, ok := s.Resolve(addr).(*ssa.FieldAddr); ok {
+		if base := s.rootAlloc(fa.X); base != nil && s.Fresh[base] && !s.Volatile[base] {
+			if p, ok := fa.Type().Underlying().(*types.Pointer); ok {
+				return zeroVal(p.Elem())
+			}
+		}
+	}
 	return Val{}
+}
+
+// rootAlloc returns the allocation an address expression is based on (through field
+// selections and loads of non-reassigned pointers held in SSA values), or nil.
+func (s *State) rootAlloc(v ssa.Value) *ssa.Alloc {
+	for i := 0; i < 8; i++ {
+		v = s.Resolve(v)
+		switch x := v.(type) {
+		case *ssa.Alloc:
+			return x
+		case *ssa.FieldAddr:
+			v = x.X
+		default:
+			return nil
+		}
+	}
+	return nil
 }
 
 func zeroVal(t types.Type) Val {
@@ -442,6 +476,14 @@ func Explore(fn *ssa.Function, b *ssa.BasicBlock, idx int, pred *ssa.BasicBlock,
 		switch x := b.Instrs[i].(type) {
 		case *ssa.Store:
 			st.V[st.cell(x.Addr)] = st.Eval(x.Val)
+			if a, ok := st.Resolve(x.Addr).(*ssa.Alloc); ok {
+				// the whole object is overwritten: its fields are whatever the stored value holds
+				if _, isStruct := x.Val.Type().Underlying().(*types.Struct); isStruct {
+					if _, isConst := x.Val.(*ssa.Const); !isConst {
+						delete(st.Fresh, a)
+					}
+				}
+			}
 			if h.Instr != nil {
 				h.Instr(st, x)
 			}
@@ -456,9 +498,13 @@ func Explore(fn *ssa.Function, b *ssa.BasicBlock, idx int, pred *ssa.BasicBlock,
 			if tv, ok := st.V[tkey{x.Tuple, x.Index}]; ok {
 				st.V[x] = tv
 			}
+		case *ssa.Alloc:
+			st.Fresh[x] = true
+			delete(st.Volatile, x)
 		case *ssa.Call:
 			if h.Fork != nil {
 				if outs := h.Fork(st, x); outs != nil {
+					markEscapes(st, x)
 					for _, o := range outs {
 						s2 := st.Clone()
 						bindResults(s2, x, o)
@@ -592,6 +638,11 @@ func bindCallee(st *State, call *ssa.Call, cal *ssa.Function) {
 		if k < len(cc.Args) {
 			// arguments are immutable SSA values: remember their abstract value now
 			st.V[p] = st.Eval(cc.Args[k])
+			if _, isPtr := p.Type().Underlying().(*types.Pointer); isPtr {
+				// keep the identity of the pointed-to object so that field cells coincide
+				delete(st.V, p)
+				st.Alias[p] = st.Resolve(cc.Args[k])
+			}
 		}
 	}
 }
